@@ -5,8 +5,9 @@ import Bng.Proof.Failover
   Property statements only.  `ops : List Op` is an arbitrary sequence of partner-down / partner-up reports,
   clock advances, control-loop ticks, timer deliveries `fire i` (of any timer instance, at any time at or after its
   deadline — including instances that were stopped too late, i.e. stale time.AfterFunc callbacks), ends of grace
-  sleeps `wake j ok` with either callback outcome, and operator commands.  The model is the code as repaired by
-  28a60ee (D44), 6b9ce09 (D45) and aee8e6b (failback re-validation); all six clauses hold at full strength.
+  sleeps `check j ok dur` (re-validation, then the role-change callback is invoked, answers `ok` and takes `dur`,
+  running without the lock), callback returns `commit j`, and operator commands.  The model is the code as repaired
+  (28a60ee, 6b9ce09, aee8e6b, 961093e, 84453e4, 804ff33, bd43000, 302ed70); all clauses hold at full strength.
 -/
 namespace Bng.Spec.C14
 open Bng.Failover
@@ -58,6 +59,32 @@ theorem auto_promotions_sustained (c : Cfg) (ops : List Op) :
   rw [hcfg] at this
   exact this
 
+/-- The role-change callback of an automatic failover is invoked only while the partner is still reported down:
+    if the partner is reported healthy when the grace sleep ends (it recovered during the sleep, or its health was
+    reset), the execution is dropped, no callback is invoked, and the state returns to normal (for every state). -/
+theorem promote_callback_requires_down (s : State) (j : Nat) (ok : Bool) (dur : Nat) (e : Exec)
+    (he : s.execs[j]? = some e) (hk : e.kind = .failover) (hf : e.forced = false)
+    (hs : e.stage = .sleeping) (hd : e.due ≤ s.now) :
+    (s.healthy = true → (callCheck s j ok dur).1.state = .normal ∧ (callCheck s j ok dur).2 = [.canceled] ∧
+        (callCheck s j ok dur).1.role = s.role) ∧
+    (Emit.callback .active ok ∈ (callCheck s j ok dur).2 → s.healthy = false) := by
+  unfold callCheck
+  simp only [he, hs, ne_eq, not_true_eq_false, false_or, Nat.not_lt.mpr hd, if_false, hk, hf, true_and]
+  cases hh : s.healthy with
+  | true => simp [cancelFailover]
+  | false => simp
+
+/-- If the partner recovers while the callback of an automatic failover runs, the commit schedules the failback
+    that the ignored partner_up would have scheduled — and in general, in every reachable state: active and
+    complete next to a partner reported healthy, with failback enabled, happens only after an operator-forced
+    promotion with no recovery reported since (no silent dual-active). -/
+theorem no_dual_active (c : Cfg) (ops : List Op)
+    (h1 : (run (init c) ops).state = .complete) (h2 : (run (init c) ops).healthy = true)
+    (h3 : c.failbackEnabled = true) : (run (init c) ops).forcedHold = true := by
+  have hI := inv_run (inv_init c) ops
+  have hcfg : (run (init c) ops).cfg = c := run_cfg _ _
+  exact hI.D h1 h2 (by rw [hcfg]; exact h3)
+
 /-- A recovery reported while the failover is pending cancels it: the state returns to normal, the role is
     unchanged, and no timer instance that existed at that moment can ever promote — whatever happens afterwards
     (`ops'`) and however late it is delivered, its delivery changes neither state, role nor the executions in
@@ -71,8 +98,8 @@ theorem recovery_cancels (c : Cfg) (ops ops' : List Op) (i : Nat)
   have hI := inv_run (inv_init c) ops
   generalize run (init c) ops = s at *
   have hh := (hI.K hp).1
-  have hup : (step s .up).1 = { s with healthy := true, downSince := none, state := .normal, gen := s.gen + 1, timers := stopAll .failover s.now s.timers, canceled := s.canceled + 1 } := by
-    simp [step, up, hh, handleUp, hp]
+  have hup : (step s .up).1 = { s with healthy := true, downSince := none, forcedHold := false, state := .normal, gen := s.gen + 1, timers := stopAll .failover s.now s.timers, canceled := s.canceled + 1 } := by
+    simp [step, up, hh, handleUp, hp, cancelFailover]
   refine ⟨by rw [hup], by rw [hup], ?_⟩
   intro s2
   have hg := run_gens (step s .up).1 ops'
@@ -107,49 +134,38 @@ theorem recovery_cancels (c : Cfg) (ops ops' : List Op) (i : Nat)
         · rename_i hc; exact absurd hc.2 hs
         · exact ⟨rfl, rfl, rfl⟩
 
-/-- The reported role changes only in the step that follows a role-change callback which succeeded for exactly
-    the new role (for every state, reachable or not). -/
+/-- The reported role changes only in the step in which a role-change callback that was invoked earlier returns
+    success (for every state): the step is `commit j` of an execution in its calling stage whose callback answered
+    ok. -/
 theorem role_after_callback_ok (s : State) (op : Op) (h : (step s op).1.role ≠ s.role) :
-    ∃ j, op = .wake j true ∧ Emit.callback (step s op).1.role true ∈ (step s op).2 := by
+    ∃ j e, op = .commit j ∧ s.execs[j]? = some e ∧ e.stage = .calling ∧ e.cbOk = true := by
   cases op with
-  | down => exfalso; apply h; simp only [step, down, handleDown]; (repeat' split) <;> rfl
-  | up => exfalso; apply h; simp only [step, up, handleUp]; (repeat' (first | split | (simp only; split))) <;> rfl
+  | down => exfalso; apply h; simp only [step, down, scheduleFailover]; (repeat' (first | split | (simp only; split))) <;> rfl
+  | up => exfalso; apply h; simp only [step, up, handleUp, cancelFailover, scheduleFailback]; (repeat' (first | split | (simp only; split))) <;> rfl
   | tick => exfalso; apply h; simp only [step, tick]; (repeat' split) <;> rfl
   | advance dt => exact absurd rfl h
-  | fire i => exfalso; apply h; simp only [step, fire]; (repeat' (first | split | (simp only; split))) <;> rfl
+  | fire i => exfalso; apply h; simp only [step, fire, cancelFailover]; (repeat' (first | split | (simp only; split))) <;> rfl
+  | check j ok dur => exfalso; apply h; simp only [step, callCheck, cancelFailover]; (repeat' (first | split | (simp only; split))) <;> rfl
   | forceFailover => exfalso; apply h; simp only [step, forceFailover]; (repeat' split) <;> rfl
   | forceFailback => exfalso; apply h; simp only [step, forceFailback]; (repeat' split) <;> rfl
-  | wake j ok =>
-    refine ⟨j, ?_⟩
-    simp only [step] at h ⊢
-    unfold wake at h ⊢
-    split
-    · rename_i hn; simp [hn] at h
+  | commit j =>
+    simp only [step] at h
+    unfold commit at h
+    split at h
+    · exact absurd rfl h
     · rename_i e he
-      simp only [he] at h
-      split
-      · rename_i hw; simp [hw] at h
-      · rename_i hw
-        simp only [hw, if_false] at h
-        cases hk : e.kind with
-        | failover =>
-          simp only [hk] at h ⊢
-          cases ok with
-          | true => simp
-          | false => simp at h
-        | failback =>
-          simp only [hk] at h ⊢
-          split
-          · rename_i hc; simp [hc] at h
-          · rename_i hc
-            simp only [hc, if_false] at h
-            split
-            · rename_i hu; simp [hu] at h
-            · rename_i hu
-              simp only [hu] at h
-              cases ok with
-              | true => simp
-              | false => simp at h
+      split at h
+      · exact absurd rfl h
+      · rename_i hen
+        simp only [ne_eq, not_or, Decidable.not_not, Nat.not_lt] at hen
+        refine ⟨j, e, rfl, he, hen.1, ?_⟩
+        cases hok : e.cbOk with
+        | true => rfl
+        | false =>
+          exfalso; apply h
+          simp only [hok, Bool.false_eq_true, if_false]
+          cases e.kind <;> simp only [scheduleFailover, scheduleFailback] <;>
+            (repeat' (first | split | (simp only; split))) <;> rfl
 
 /-- Each promotion emits exactly one `completed` event and is counted once: along every history the number of
     `completed` events, the number of role changes standby → active and the failoversCompleted counter coincide. -/
@@ -158,55 +174,45 @@ theorem one_completed_per_promotion (c : Cfg) (ops : List Op) :
     (run (init c) ops).completed = (run (init c) ops).promotions :=
   (inv_run (inv_init c) ops).C
 
-/-- A failback is completed only in a step in which the partner is reported healthy (for every state). -/
-theorem failback_only_healthy (s : State) (op : Op) (h : (step s op).1.failbacks ≠ s.failbacks) :
-    s.healthy = true ∧ (step s op).1.healthy = true := by
-  cases op with
-  | down => exfalso; apply h; simp only [step, down, handleDown]; (repeat' split) <;> rfl
-  | up => exfalso; apply h; simp only [step, up, handleUp]; (repeat' (first | split | (simp only; split))) <;> rfl
-  | tick => exfalso; apply h; simp only [step, tick]; (repeat' split) <;> rfl
-  | advance dt => exact absurd rfl h
-  | fire i => exfalso; apply h; simp only [step, fire]; (repeat' (first | split | (simp only; split))) <;> rfl
-  | forceFailover => exfalso; apply h; simp only [step, forceFailover]; (repeat' split) <;> rfl
-  | forceFailback => exfalso; apply h; simp only [step, forceFailback]; (repeat' split) <;> rfl
-  | wake j ok =>
-    simp only [step] at h ⊢
-    unfold wake at h ⊢
-    split
-    · rename_i hn; simp [hn] at h
-    · rename_i e he
-      simp only [he] at h
-      split
-      · rename_i hw; simp [hw] at h
-      · rename_i hw
-        simp only [hw, if_false] at h
-        cases hk : e.kind with
-        | failover =>
-          simp only [hk] at h
-          cases ok <;> simp at h
-        | failback =>
-          simp only [hk] at h ⊢
-          split
-          · rename_i hc; simp [hc] at h
-          · rename_i hc
-            simp only [hc, if_false] at h
-            split
-            · rename_i hu; simp [hu] at h
-            · rename_i hu
-              have : s.healthy = true := by
-                cases hh : s.healthy with
-                | true => rfl
-                | false => exact absurd hh hu
-              cases ok with
-              | true => simp [this]
-              | false => simp [hu] at h
+/-- The failback's role-change callback is invoked only while the partner is reported healthy and the failback
+    is still the pending one (for every state). -/
+theorem failback_only_healthy (s : State) (j : Nat) (ok : Bool) (dur : Nat) (e : Exec)
+    (he : s.execs[j]? = some e) (hk : e.kind = .failback)
+    (hc : Emit.callback s.cfg.original ok ∈ (callCheck s j ok dur).2) :
+    s.healthy = true ∧ s.state = .failbackPending ∧ e.gen = s.gen := by
+  unfold callCheck at hc
+  simp only [he, hk] at hc
+  split at hc
+  · simp at hc
+  · split at hc
+    · simp at hc
+    · rename_i hv
+      simp only [ne_eq, not_or, Decidable.not_not] at hv
+      split at hc
+      · simp at hc
+      · rename_i hu
+        refine ⟨?_, hv.1, hv.2⟩
+        cases hh : s.healthy with
+        | true => rfl
+        | false => exact absurd hh hu
+
+/-- … and when the partner fails while that callback runs, the commit acts on it: in every reachable state a
+    standby in normal state has a partner that is reported healthy — a standby next to a partner reported down
+    always has a failover pending or in progress (after a failback, after a failed callback, after a cancel). -/
+theorem no_stranded_standby (c : Cfg) (ops : List Op)
+    (h1 : (run (init c) ops).role = .standby) (h2 : (run (init c) ops).state = .normal) :
+    (run (init c) ops).healthy = true :=
+  (inv_run (inv_init c) ops).N h1 h2
 
 /-- The controller is never in_progress with nothing pending: in every reachable in_progress state a failover
-    execution is in flight, and the end of its grace sleep — enabled as soon as the clock has reached `wake`,
-    whatever the callback answers — leaves in_progress. -/
+    execution is in flight; the end of its grace sleep (enabled once the clock has reached `due`) either cancels it
+    (state normal) or invokes the callback, and the callback's return leaves in_progress whatever it answered. -/
 theorem no_stuck_in_progress (c : Cfg) (ops : List Op) (h : (run (init c) ops).state = .inProgress) :
     ∃ j e, (run (init c) ops).execs[j]? = some e ∧ e.kind = .failover ∧
-      ∀ s', s'.execs = (run (init c) ops).execs → e.wake ≤ s'.now → ∀ ok, (wake s' j ok).1.state ≠ .inProgress := by
+      ∀ s', s'.execs = (run (init c) ops).execs → e.due ≤ s'.now →
+        (e.stage = .calling → (commit s' j).1.state ≠ .inProgress) ∧
+        (e.stage = .sleeping → ∀ ok dur, (callCheck s' j ok dur).1.state = .normal ∨
+            ∃ e', (callCheck s' j ok dur).1.execs[j]? = some e' ∧ e'.stage = .calling ∧ e'.kind = .failover) := by
   have hI := inv_run (inv_init c) ops
   generalize run (init c) ops = s at *
   have h1 := hI.E1 h
@@ -217,18 +223,30 @@ theorem no_stuck_in_progress (c : Cfg) (ops : List Op) (h : (run (init c) ops).s
   have hk : e.kind = .failover := by
     simp only [isFo, beq_iff_eq] at hfo; exact hfo
   refine ⟨j, e, hget, hk, ?_⟩
-  intro s' hex hw ok
-  unfold wake
-  rw [hex, hget]
-  simp only [Nat.not_lt.mpr hw, if_false, hk]
-  cases ok <;> simp
+  intro s' hex hw
+  constructor
+  · intro hst
+    unfold commit
+    rw [hex, hget]
+    simp only [hst, ne_eq, not_true_eq_false, false_or, Nat.not_lt.mpr hw, if_false, hk]
+    cases e.cbOk <;> simp only [scheduleFailover, scheduleFailback] <;>
+      (repeat' (first | split | (simp only; split))) <;> simp
+  · intro hst ok dur
+    unfold callCheck
+    rw [hex, hget]
+    simp only [hst, ne_eq, not_true_eq_false, false_or, Nat.not_lt.mpr hw, if_false, hk]
+    split
+    · left; simp [cancelFailover]
+    · right
+      refine ⟨{ e with stage := .calling, due := s'.now + dur, cbOk := ok }, ?_, rfl, hk⟩
+      rw [getElem?_setExec _ hj, hk]
 
 /-! non-vacuity -/
 def cfg0 : Cfg := { delay := 2500, fbDelay := 3500, grace := 700, failbackEnabled := true, original := .standby }
 
 -- an automatic promotion after a sustained failure, then a failback
-example : let s := run (init cfg0) [.down, .advance 2500, .fire 0, .advance 700, .wake 0 true, .up, .advance 3500,
-      .fire 1, .advance 700, .wake 0 true]
+example : let s := run (init cfg0) [.down, .advance 2500, .fire 0, .advance 700, .check 0 true 0, .commit 0, .up,
+      .advance 3500, .fire 1, .advance 700, .check 0 true 0, .commit 0]
     s.role = .standby ∧ s.completed = 1 ∧ s.failbacks = 1 ∧ s.autoLog = [(2500, some 0)] := by decide
 -- the hypotheses of promote_requires_sustained_down are met by a real entry
 example : (fire (run (init cfg0) [.down, .advance 2500]) 0).1.state = .inProgress ∧
@@ -237,6 +255,18 @@ example : (fire (run (init cfg0) [.down, .advance 2500]) 0).1.state = .inProgres
 example : let s := run (init cfg0) [.down, .advance 2500, .up, .down, .fire 0]
     s.state = .pending ∧ s.execs = [] := by decide
 -- a forced failover executes (D44)
-example : (run (init cfg0) [.forceFailover, .advance 700, .wake 0 true]).role = .active := by decide
+example : (run (init cfg0) [.forceFailover, .advance 700, .check 0 true 0, .commit 0]).role = .active := by decide
+-- the reviewer's history (recovery during the grace sleep): no promotion any more
+example : let s := run (init cfg0) [.down, .advance 2500, .fire 0, .up, .advance 700, .check 0 true 0, .tick,
+      .advance 100000, .tick]
+    s.role = .standby ∧ s.state = .normal ∧ s.healthy = true ∧ s.canceled = 1 := by decide
+-- recovery while the callback runs: promoted, and the failback is scheduled at commit
+example : let s := run (init cfg0) [.down, .advance 2500, .fire 0, .advance 700, .check 0 true 1500, .up,
+      .advance 1500, .commit 0]
+    s.role = .active ∧ s.state = .failbackPending := by decide
+-- partner fails while the failback's callback runs and the tick cancels: the commit re-arms the failover
+example : let s := run (init cfg0) [.down, .advance 2500, .fire 0, .advance 700, .check 0 true 0, .commit 0, .up,
+      .advance 3500, .fire 1, .advance 700, .check 0 true 1500, .down, .advance 1000, .tick, .advance 500, .commit 0]
+    s.role = .standby ∧ s.state = .pending ∧ s.failbacks = 1 := by decide
 
 end Bng.Spec.C14
